@@ -219,6 +219,13 @@ def r2(fx):
     yield ob('message needs version 9 > requested 5: split into Structured Append symbols, each with the requested mask / boost flag', isinstance(res, list) and
              all(x['sa_info'] is not None and x['version'] == 5 and x['mask'] == 3 and x['boost_error'] is False for x in rec['_encode']) and len(res) > 1, fn,
              got=(res if not isinstance(res, list) else [(x['version'], x['mask'], x['boost_error']) for x in rec['_encode']][:3]), want='> 1 symbols with header, mask 3')
+    # mask 0 is a mask like any other (it is falsy, the other seven are not): on all three paths
+    for title, kw_, fit in (('several symbols by version', dict(version=5), 9), ('several symbols by symbol_count', dict(symbol_count=3), None),
+                            ('one plain symbol', dict(version=5), 3)):
+        res, rec = _run(fx, it, CONTENT * (1 if fit == 3 else 3), 'byte', 'iso-8859-1', fit_single=fit, mask=0, **kw_)
+        masks = [x['mask'] for x in rec['_encode']]
+        yield ob(f'requested mask 0 ({title}): every symbol is built with mask 0', isinstance(res, list) and masks and all(m == 0 and m is not None and m is not False for m in masks),
+                 fn, got=masks if isinstance(res, list) else res, want='mask 0 for every symbol')
     cases = [
         ('Micro version M3', dict(version='M3'), 'raises ValueError'),
         ('Micro version m1', dict(version='m1'), 'raises ValueError'),
@@ -344,6 +351,8 @@ def sequence_symbols_consistent(fx):
                 if not (seen['final'] == seen['format'] == seen['code'] == (want_version, want_level) and seen['version_info'] == want_version
                         and seen['placed'] == want_version):
                     probs.append(f'symbol {i}: {seen}')
+                if sym['boost'] is None and sym['final']['error'] != lv[req.upper()]:
+                    probs.append(f'symbol {i}: built at level {sym["final"]["error"]} although {req.upper()} was requested and the booster was never asked about this symbol')
                 if sym['boost'] is not None and sym['boost']['version'] != want_version:
                     probs.append(f'symbol {i}: the booster is asked about version {sym["boost"]["version"]}, the symbol is built in version {want_version}')
                 if sym.get('format_calls') != 1 or fmt.get('mask') != 5 or sym['code']['mask'] != 5:
